@@ -85,6 +85,20 @@ func newEndpoint(name string, b *abs.Built, dir string, leader bool) (*endpoint,
 		return nil, err
 	}
 	ep.row.UUID = reply[0].UUID.GoUUID
+	// as a real ovsdb-server does, the table also lists the _Server database itself: standalone, not clustered
+	self := &serverdb.Database{UUID: map[string]string{"A": "00000000-0000-4000-8000-0000000000a2", "B": "00000000-0000-4000-8000-0000000000b2"}[name],
+		Name: "_Server", Connected: true, Leader: true, Model: serverdb.DatabaseModelStandalone}
+	sops, err := ep.adm.Create(self)
+	if err != nil {
+		return nil, err
+	}
+	sreply, err := ep.adm.Transact(ctx, sops...)
+	if err != nil {
+		return nil, err
+	}
+	if _, err := ovsdb.CheckOperationResults(sreply, sops); err != nil {
+		return nil, err
+	}
 	if ep.wr, err = client.NewOVSDBClient(b.ClientDB, client.WithEndpoint("unix:"+ep.sock), client.WithLogger(&l)); err != nil {
 		return nil, err
 	}
